@@ -124,7 +124,7 @@ theorem afterSvc_agree {cfg : Config} (hwf : Spec.wfCommon cfg = true) {svc : Se
     expected parameters — or both answer the same error -/
 theorem agree_core (cfg : Config) (hwf : Spec.wfCommon cfg = true) (hroots : Spec.rootsDistinct cfg = true)
     (hclean : Spec.rootsClean cfg = true) (req : Req) (hp : Spec.normalPath req.path = true) :
-    (∃ svc sc, Curly.detectWebService (tokenize req.path) cfg.services none = some (svc, sc) ∧ svc ∈ cfg.services ∧
+    (∃ svc sc, Curly.detectWebService E (tokenize req.path) cfg.services none = some (some (svc, sc)) ∧ svc ∈ cfg.services ∧
       ∃ rc ∈ svc.built, ∃ rj ∈ svc.built, ∃ tsc tsj,
         readTemplate rc.path = some tsc ∧ readTemplate rj.path = some tsj ∧
         Spec.admits E .curly tsc (tokenize req.path) = true ∧ Spec.admits E .curly tsj (tokenize req.path) = true ∧
@@ -135,7 +135,12 @@ theorem agree_core (cfg : Config) (hwf : Spec.wfCommon cfg = true) (hroots : Spe
       ∀ s r ps, (routeCurly E cfg req).1 ≠ .selected s r ps) := by
   have hsvc := C18_service_agrees E cfg hwf hroots hclean req.path hp
   rw [routeCurly_fst, routeJsr_fst]
-  cases h1 : Curly.detectWebService (tokenize req.path) cfg.services none with
+  cases h1 : Curly.detectWebService E (tokenize req.path) cfg.services none with
+  | none =>
+    rw [h1] at hsvc
+    cases h2 : Jsr.detectDispatcher E cfg.services req.path <;> simp [h2] at hsvc
+  | some d1 =>
+  cases d1 with
   | none =>
     rw [h1] at hsvc
     cases h2 : Jsr.detectDispatcher E cfg.services req.path with
@@ -221,7 +226,7 @@ theorem C18_agree_partial (E : ReEnv) (cfg : Config) (hwf : Spec.wfCommon cfg = 
 theorem C18_ranksAgree_of_unique_eligible (E : ReEnv) (cfg : Config) (hwf : Spec.wfCommon cfg = true)
     (hroots : Spec.rootsDistinct cfg = true) (hclean : Spec.rootsClean cfg = true)
     (req : Req) (hp : Spec.normalPath req.path = true)
-    (huniq : ∀ svc sc, Curly.detectWebService (tokenize req.path) cfg.services none = some (svc, sc) →
+    (huniq : ∀ svc sc, Curly.detectWebService E (tokenize req.path) cfg.services none = some (some (svc, sc)) →
       ∀ r1 ∈ svc.built, ∀ r2 ∈ svc.built,
         Spec.pathAdmits E .curly r1 req.path = true → Spec.pathAdmits E .curly r2 req.path = true →
         Spec.eligible r1 req = true → Spec.eligible r2 req = true → r1 = r2) :
